@@ -73,7 +73,7 @@ REQUIRED = dict(
     monitors=[M_X_SUB, M_X_NODE, M_X_FMT, M_X_GRID, M_X_NAME, M_X_UNIT, M_C_NODE, M_C_FMT, M_C_GRID, M_C_NAME, M_K_NODE, M_K_FMT,
               M_K_GRID, M_K_NAME, M_H_ONCE, M_H_PATH, M_H_VAL, M_H_INTERP, M_HK_INTERP, M_CIA_FIRST],
     classes=['xsec:pickle', 'xsec:hdf5', 'xsec:exotransmit', 'unit:Pa', 'unit:bar', 'unit:mbar', 'unit:Ba',
-             'unit:cds-only', 'cia:pickle', 'cia:hitran', 'hitran:per-temperature-ranges', 'hitran:negative-floored', 'hitran:whole-block-negative-below-an-interpolated-temperature', 'hitran:two-ranges-a-hair-apart', 'history:hundreds-of-temperatures-then-earlier-ones-again',
+             'unit:cds-only', 'cia:pickle', 'cia:hitran', 'hitran:per-temperature-ranges', 'hitran:negative-floored', 'exotransmit:a-wavelength-listed-twice', 'hitran:whole-block-negative-below-an-interpolated-temperature', 'hitran:two-ranges-a-hair-apart', 'history:hundreds-of-temperatures-then-earlier-ones-again',
              'hitran:ranges-share-a-wavenumber', 'query:work-array-refilled-in-place',
              'ktab:pickle', 'ktab:hdf5', 'name:isotopologue', 'name:suffix', 'query:node', 'query:interior',
              'query:outside', 'query:wngrid', 'interp:linear', 'interp:exp', 'hist:xsec', 'hist:cia', 'hist:ktab',
@@ -362,6 +362,30 @@ def wl_xsec(ctx, rng):
         L.write_xsec_exotransmit(os.path.join(d, 'opac' + stem_e + '.dat'), wn, T, P, x, order=order, rng=rng)
         containers.append(dict(fmt='exotransmit', dir=d, stem=stem_e, unit='bar', plain=plain, order=order))
 
+        if ctx.case['index'] % 3 == 1 and nwn >= 4:
+            # an Exo-Transmit text table stitched from two spectral segments that both hold the seam point: one wavelength is
+            # listed twice, each record with its own numbers.  Only the LOADING is judged (every record of the file is in the
+            # loaded table, on an ascending axis; which of the two seam records comes first is not stated): the unchanged
+            # package cannot serve every sub-range of an axis with a repeated point
+            j = int(rng.integers(1, nwn - 1))
+            wn2 = np.insert(wn, j, wn[j])
+            x2 = np.insert(x, j, x[..., j] * float(rng.uniform(1.2, 3.0)), axis=-1)
+            d2 = L.makedirs(root, 'exotransmit-seam')
+            L.write_xsec_exotransmit(os.path.join(d2, 'opac' + mol + '.dat'), wn2, T, P, x2,
+                                     order=['wavelength-ascending', 'wavenumber-ascending'][rng.integers(0, 2)], rng=rng)
+            world.reset_caches()
+            OpacityCache().set_opacity_path(d2)
+            op2 = OpacityCache()[mol]
+            ctx.observe('exotransmit:a-wavelength-listed-twice')
+            ok2 = ctx.check('xsec:every-record-of-a-stitched-file-is-loaded', len(op2.wavenumberGrid) == nwn + 1
+                            and tuple(np.shape(op2.xsecGrid)) == (nP, nT, nwn + 1), n_loaded=len(op2.wavenumberGrid), n_in_file=nwn + 1,
+                            shape=list(np.shape(op2.xsecGrid)))
+            if ok2:
+                ctx.close('xsec:every-record-of-a-stitched-file-is-loaded', op2.wavenumberGrid, wn2, 4e-16, axis='wn')
+                g2, w2 = np.array(op2.xsecGrid, dtype=float), np.array(x2, dtype=float)           # (the stored grid is in cm2)
+                tie = np.where(wn2 == wn[j])[0]
+                g2[..., tie], w2[..., tie] = np.sort(g2[..., tie], axis=-1), np.sort(w2[..., tie], axis=-1)
+                ctx.close('xsec:every-record-of-a-stitched-file-is-loaded', g2, w2, 1e-12, atol=EXO_ABS * 1e4, what='table[cm2]')
         tq = tp_queries(rng, T, P)
         wq = wn_queries(rng, wn)
         x_si = x * 1e-4
